@@ -45,7 +45,8 @@ func c06Cases(tier string) []SchedCase {
 	add(`{t{name req kid{name}}}`, nil)
 	add(`{t{name req kid{name}}}`, planOf("t.name", "error", "t.kid.name", "error"))
 	add(`{t{req name kid{name}}}`, planOf("t.req", "error"))
-	add(`{tReq{req name}}`, planOf("tReq.req", "null"))
+	add(`{tReq{kidReq{id} name}}`, planOf("tReq.kidReq", "null"))
+	add(`{tReq{req name kid{name}}}`, planOf("tReq.req", "error"))
 	add(`{ts{name req}}`, nil)
 	add(`{ts{name req}}`, planOf("ts[0].req", "error", "ts[1].name", "error"))
 	add(`{t{kidsReq{req}}}`, planOf("t.kidsReq[1].req", "error"))
@@ -75,10 +76,11 @@ func c05Cases(tier string) []SchedCase {
 		add(tr, `{ts{name}}`, nil)
 		add(tr, `{ts{name}}`, planOf("ts", "len3"))
 		add(tr, `{t{kids{name}}}`, planOf("t.kids", "len1"))
-		add(tr, `{t{kidsReq{kids{id}}}}`, nil)
+		add(tr, `{t{kidsReq{kids{id}}}}`, planOf("t.kidsReq", "len1"))
 		add(tr, `{t{id ... @defer{name}}}`, nil)
 		add(tr, `{t{id ... @defer(label:"a"){name} ... @defer(label:"b"){req}}}`, nil)
 		if tier == "thorough" {
+			add(tr, `{t{kidsReq{kids{id}}}}`, planOf("t.kidsReq[0].kids", "len1"))
 			add(tr, `{ts{id ... @defer{name}}}`, nil)
 			add(tr, `{t{id ... @defer{kid{id ... @defer{name}}}}}`, nil)
 			add(tr, `{t{ints kids{name req}}}`, planOf("t.kids", "len0"))
@@ -266,9 +268,12 @@ func (s *Shared) schedMain(prop, tier string) {
 		Level:    "model_checking",
 		PassArgs: []string{"--prop", prop},
 		Cfg: func(tier string) explore.Config {
-			b := 2
+			b := 3
 			if tier == "thorough" {
-				b = 3
+				b = 4
+			}
+			if prop == "C05" {
+				b-- // cancellation is an extra event at every point
 			}
 			return explore.Config{Bound: b, MaxSteps: 20000}
 		},
